@@ -104,7 +104,7 @@ def run(prop, seed, params):
     scenario["lines"] = _gen_text(r, ctx)
     # a fault: a chunk that raises in the middle of a chunk history
     if r.random() < 0.15:
-        scenario["fault"] = {"at": r.randrange(len(scenario["lines"])), "kind": r.choice(["syntax", "undef", "redef"])}
+        scenario["fault"] = {"at": r.randrange(len(scenario["lines"])), "kind": r.choice(["syntax", "undef", "redef", "redef-own", "redef-own"])}
     result = execute(prop, scenario, params)
     return scenario, result
 
@@ -226,9 +226,19 @@ def execute(prop, scenario, params):
     meta = {"sigma": core.digest(scenario["sigma"]), "interleavings": []}
     try:
         if fault:
-            bad = {"syntax": "this is not assembly !!", "undef": "jmp never_defined_anywhere", "redef": (scenario["module_code_syms"] + scenario["module_data_syms"] + ["mc_none"])[0] + ":"}[fault["kind"]]
-            want = {"syntax": AsmSyntaxError, "undef": UndefSymbolError, "redef": MultipleDefinitionsError}[fault["kind"]]
+            # (redef-own: a label of the text itself - temporary ones get the
+            # caller's suffix - is defined a second time)
+            own = [l["name"] for l in lines if l["t"] == "label"]
+            bad = {
+                "syntax": "this is not assembly !!",
+                "undef": "jmp never_defined_anywhere",
+                "redef": (scenario["module_code_syms"] + scenario["module_data_syms"] + ["mc_none"])[0] + ":",
+                "redef-own": (own[fault["at"] % len(own)] if own else "none") + ":",
+            }[fault["kind"]]
+            want = {"syntax": AsmSyntaxError, "undef": UndefSymbolError, "redef": MultipleDefinitionsError, "redef-own": MultipleDefinitionsError}[fault["kind"]]
             if fault["kind"] == "redef" and not (scenario["module_code_syms"] + scenario["module_data_syms"]):
+                fault = None
+            elif fault["kind"] == "redef-own" and not own:
                 fault = None
             elif fault["kind"] == "undef" and scenario.get("allow_undef"):
                 fault = None
